@@ -60,7 +60,7 @@ def usedRatio (totalLiq totalCol : Int) : Option Int :=
   if totalCol > 0 then some (wrap (Int.tdiv (totalLiq * ONE) totalCol)) else none
 
 def exp10Fx (d : Int) : Option Int :=
-  if 0 ≤ d then Mfi.Gen.EXP_10_I80F48[d.toNat]? else none
+  if 0 ≤ d then POW10FX[d.toNat]? else none
 
 /-- `scale_supplies` -/
 def scaleSupplies (totalLiqRaw totalColRaw decimals : Int) : Option (Int × Int) := do
@@ -151,5 +151,29 @@ def driftAdjustI128 (cum raw : Int) : Option Int :=
 
 /-- Drift `is_stale`: interest was not updated in the current second -/
 def driftStale (lastInterestTs now : Int) : Bool := decide (lastInterestTs < now)
+
+/-! ### staked collateral (single-validator stake pool): `OracleSetup::StakedWithPythPush` in state/price.rs -/
+
+def LAMPORTS_PER_SOL : Int := 1000000000
+
+inductive StakedOut where
+  | ok (price ema : Int)
+  | zeroSupply            -- ZeroSupplyInStakePool
+  | math                  -- MathError: the pool holds less than its non-refundable first SOL
+  | panic                 -- `try_into().unwrap()`: the adjusted price does not fit an i64
+  deriving Repr, DecidableEq
+
+/-- The re-scaling of the SOL price feed (spot and EMA price, both i64) to the price of one pool token:
+    `price * (delegated stake - 1 SOL) / lst supply`, multiplication first, i128 division (toward zero).
+    `stake`, `supply` are u64; `i64 * u64` cannot overflow an i128. -/
+def stakedAdjust (price ema stake supply : Int) : StakedOut :=
+  if supply = 0 then .zeroSupply
+  else if stake < LAMPORTS_PER_SOL then .math
+  else
+    let p := Int.tdiv (price * (stake - LAMPORTS_PER_SOL)) supply
+    if p < I64MIN ∨ I64MAX < p then .panic
+    else
+      let e := Int.tdiv (ema * (stake - LAMPORTS_PER_SOL)) supply
+      if e < I64MIN ∨ I64MAX < e then .panic else .ok p e
 
 end Mfi.Integr
